@@ -11,7 +11,9 @@ pub mod c09;
 pub mod c10;
 pub mod c11;
 pub mod c12;
+pub mod c15;
 pub mod c16;
+pub mod c19;
 pub mod e2e_paths;
 
 pub fn run(ctx: &Ctx) -> Option<Report> {
@@ -26,7 +28,9 @@ pub fn run(ctx: &Ctx) -> Option<Report> {
         "C10" => Some(c10::run(ctx)),
         "C11" => Some(c11::run(ctx)),
         "C12" => Some(c12::run(ctx)),
+        "C15" => Some(c15::run(ctx)),
         "C16" => Some(c16::run(ctx)),
+        "C19" => Some(c19::run(ctx)),
         _ => None,
     }
 }
